@@ -40,7 +40,8 @@ REGEXES = ["a", "b", "A", ".", "a|b", "^a", "b$", "a*", "[ab]", "", "a b", "^$",
 def find_cases(draw):
     lab = st.sampled_from(["a", "b", "A", "ab", "ba", "a b", "", "B", "aa", "x"])
     spec = draw(st.one_of(gen.interval_tier(label=lab, style="grid"), gen.point_tier(label=lab, style="grid")))
-    q = draw(st.one_of(lab, st.sampled_from(REGEXES)))
+    # queries with white space at an edge are not the trimmed label: ' a' is found in 'b a' (substring) and equals no label
+    q = draw(st.one_of(lab, st.sampled_from(REGEXES), st.sampled_from([" a", "a ", " ", "b ", " b"])))
     if draw(st.integers(0, 3)) == 0:
         # two entries with the same label that are closer than the library's fuzzy entry equality: still two entries
         lb = draw(st.sampled_from(["a", "ab", q]))
@@ -466,8 +467,8 @@ def validate_cases(draw):
     style = draw(gen.STYLES_ARITH)
     spec = draw(gen.textgrid(style=style, max_tiers=3, label=gen.AB))
     return {"tg": spec, "tier": draw(st.integers(0, 5)),
-            "corruption": draw(st.sampled_from(["none", "none", "tier_max_bigger", "tier_max_smaller", "tier_min_bigger", "tg_max_bigger",
-                                                "entry_out_of_span", "out_of_order", "inverted"]))}
+            "corruption": draw(st.sampled_from(["entry_out_by_one_ulp", "none", "none", "entry_out_by_one_ulp", "tier_max_bigger", "tier_max_smaller", "tier_min_bigger", "tg_max_bigger",
+                                                "entry_out_of_span", "out_of_order", "inverted", "entry_out_by_one_ulp"]))}
 
 
 def run_validate(case):
@@ -502,6 +503,17 @@ def run_validate(case):
             t._entries.append(p.Interval(t.maxTimestamp + 1.0, t.maxTimestamp + 2.0, "out"))
         else:
             t._entries.append(p.Point(t.maxTimestamp + 1.0, "out"))
+        expect_tier = expect_tg = False
+    elif cor == "entry_out_by_one_ulp":
+        # the span ends one unit in the last place before the last entry does (everywhere, so that only the entry check can tell)
+        if not ts["entries"] or ts["entries"][-1][-2] <= 0:
+            return {"classes": ["skip"], "nontrivial": False}
+        new_max = math.nextafter(ts["entries"][-1][-2], -math.inf)
+        if any(e[-2] > new_max for k, tr in enumerate(spec["tiers"]) if k != ti for e in tr["entries"]) or new_max <= spec["minT"]:
+            return {"classes": ["skip"], "nontrivial": False}
+        for tr in tg.tiers:
+            tr.maxTimestamp = new_max
+        tg.maxTimestamp = new_max
         expect_tier = expect_tg = False
     elif cor == "out_of_order":
         if len(ts["entries"]) < 2:
